@@ -15,7 +15,7 @@ func init() {
 	register(&propDef{
 		ID: "C12",
 		Meta: propMeta{
-			Explanation: "Decides the structural mechanisms behind patch application: (R12a) the patch parser rejects instead of crashing: no allocation in lib/binpatch is sized by an unchecked header field (integer-taint rule) and every read error in Load is propagated; (R12b) parse-before-touch: every call of (*PatchSet).Apply outside the package receives a PatchSet that binpatch.Load returned with a nil error for the same blob, and nothing writes the source or destination before it; (R12c) Dump and Load agree on the wire format: same byte order value, same sequence of record types (PatchSetHeader, []PatchHeader, blobs in header order), version written == version accepted, count written == len(Patches), Dump sorts before writing; (R12d) every int64->uint32 narrowing in PatchSet.Add is guarded by a comparison with uint32Max, and the >4 GiB splitting loop advances offset and size by the same amount; (R12e) the in-place writes are reachable only if every patch but the last is size-preserving and the last ends at EOF (both tests on every loop path), under canOverwrite; the rewrite path rejects out-of-order patches before copying and goes through lib/atomicfile. (R12f) lib/binpatch writes only into byte slices it allocated itself; (R12g) ordering tests between a patch and the end of the previous one accept touching ranges; (R12h) headers and blobs are permuted together: the sorter wraps the set itself or a copy of both slices; (R12i) the hard-link probe asserts FileInfo.Sys() to *syscall.Stat_t, the type the os package returns. (R12j) the size the in-place path truncates the file to is assigned from the last patch and not maximised against the old size, so a patch that shortens the file does shorten it. (R12k) no function result is memory of an object that went back into a sync.Pool (shared with C14 R14e), so a serialised patch cannot be overwritten by the next request's; (R12l) atomicfile.New creates the rewrite strategy's temporary file with a unique name; (R12m) signers.ApplyBinPatch returns nil only as the result of PatchSet.Apply. (R12p) every non-nil error ApplyBinPatch returns is the result of ReadAll, binpatch.Load or PatchSet.Apply: no check of its own refuses a patch the format defines as valid.",
+			Explanation: "Decides the structural mechanisms behind patch application: (R12a) the patch parser rejects instead of crashing: no allocation in lib/binpatch is sized by an unchecked header field (integer-taint rule) and every read error in Load is propagated; (R12b) parse-before-touch: every call of (*PatchSet).Apply outside the package receives a PatchSet that binpatch.Load returned with a nil error for the same blob, and nothing writes the source or destination before it; (R12c) Dump and Load agree on the wire format: same byte order value, same sequence of record types (PatchSetHeader, []PatchHeader, blobs in header order), version written == version accepted, count written == len(Patches), Dump sorts before writing; (R12d) every int64->uint32 narrowing in PatchSet.Add is guarded by a comparison with uint32Max, and the >4 GiB splitting loop advances offset and size by the same amount; (R12e) the in-place writes are reachable only if every patch but the last is size-preserving and the last ends at EOF (both tests on every loop path), under canOverwrite; the rewrite path rejects out-of-order patches before copying and goes through lib/atomicfile. (R12f) lib/binpatch writes only into byte slices it allocated itself; (R12g) ordering tests between a patch and the end of the previous one accept touching ranges; (R12h) headers and blobs are permuted together: the sorter wraps the set itself or a copy of both slices; (R12i) the hard-link probe asserts FileInfo.Sys() to *syscall.Stat_t, the type the os package returns. (R12j) the size the in-place path truncates the file to is assigned from the last patch and not maximised against the old size, so a patch that shortens the file does shorten it. (R12k) no function result is memory of an object that went back into a sync.Pool (shared with C14 R14e), so a serialised patch cannot be overwritten by the next request's; (R12l) atomicfile.New creates the rewrite strategy's temporary file with a unique name, in filepath.Dir of the destination (shared with C13 R13a); (R12m) signers.ApplyBinPatch returns nil only as the result of PatchSet.Apply. (R12p) every non-nil error ApplyBinPatch returns is the result of ReadAll, binpatch.Load or PatchSet.Apply: no check of its own refuses a patch the format defines as valid.",
 			NotDecided:  "the arithmetic of coalescing/splicing and the equality of the in-place and rewrite results (behavioural over byte strings).",
 			Assumptions: []string{"uint32(len(blob)) is outside the narrowing rule: relic's builders do not construct >4 GiB in-memory blobs"},
 		},
@@ -668,7 +668,11 @@ func c12InPlace(c *Ctx) {
 		can := p.callGuard("canOverwrite()==true", []string{"lib/binpatch.canOverwrite"}, -1, IsTrue, nil)
 		lst := p.callGuard("Lstat err==nil", []string{"os.Lstat", "os.Stat"}, 1, IsNil, nil)
 		for i, s := range sinks {
-			missing, path := p.unguardedFromEntry(ap, s, can, lst)
+			missing, path := p.unguardedFromEntry(ap, s, lst)
+			if m2, p2 := p.overwriteMissing(ap, s); len(m2) > 0 {
+				missing, path = append(missing, m2...), p2
+			}
+			_ = can
 			c.Check(len(missing) == 0, c12RuleInPlace, fmt.Sprintf("(*lib/binpatch.PatchSet).Apply in-place write#%d under canOverwrite", i+1), p.Pos(s.Pos()), "in-place only when canOverwrite proved the target is the same, singly linked regular file", fmt.Sprintf("the input file is modified in place on a path without %v (a hard-linked or replaced output path would be corrupted / left unpatched)", missing), path...)
 		}
 	}
